@@ -23,6 +23,18 @@ def history(rng, tier, uuid_names):
     n = rng.randint(15, 40 if tier == 'quick' else 90)
     for i in range(n):
         w.random_step()
+        if rng.random() < 0.12:
+            # a create that is refused (empty type, bad name, duplicate): the container shows what it showed
+            par = w.pick(['B', 'S', 'O']) if rng.random() < 0.8 else None
+            kind = rng.choice(BLOCK_KINDS) if par is not None and par.kind == 'B' else ('S' if par is None or par.kind == 'S' else 'O')
+            extra = {'A': ' Double [2]', 'D': ' [x63:x:Double]', 'T': ' [d0000000000000000]', 'M': None, 'G': '', 'O': '', 'S': ''}[kind]
+            if extra is not None:
+                ps = par.slot if par is not None else '$F'
+                ex = w.alive(kind, parent=ps)
+                how = rng.choice(['type', 'type', 'name', 'dup'])
+                nm = S(ex[0].name) if how == 'dup' and ex else S('') if how == 'name' else S('refused-%d' % i)
+                w.emit('mk $x %s %s %s %s%s' % (kind, ps, nm, S('t') if how != 'type' else S(''), extra))
+                w.emit('xcheck %s %s' % (kind, ps))
         if rng.random() < 0.18:
             w.xcheck_all()
         if rng.random() < 0.04:
